@@ -473,4 +473,5 @@ func runC02(c *Ctx) {
 		c02Exec(c, jobs[i].cs, *jobs[i].ref)
 		r.SetAdd("families", jobs[i].cs.Family)
 	})
+	runSockLegC02(c)
 }
